@@ -263,7 +263,7 @@ def run_property(prop, tier, seed, args):
         cov.setdefault("samples", [])
         for b in bounded:
             cov["samples"].extend(b.get("samples", [])[:2])
-    if have_contracts and n_ob > 0 and n_dis == n_ob and not violations and not undecided:
+    if have_contracts and n_ob > 0 and n_dis == n_ob and not violations and not undecided and not seen_kf:
         ev["level"] = "proof"
     elif have_contracts:
         ev["level"] = "other"
